@@ -44,8 +44,60 @@ let describe pm (e : iexpr) (idx : z list) : Sx.t =
       sx_of_list sx_of_tok toks;
       re ]
 
+(* arbitrary-precision integers on the wire: b<binary digits> / b-<binary digits> (constructors only, no
+   extracted arithmetic): the `big` request works on expressions whose length does not fit an OCaml int *)
+let rec bits_of_pos (b : Buffer.t) (p : positive) : unit =
+  match p with
+  | XH -> Buffer.add_char b '1'
+  | XO q -> bits_of_pos b q; Buffer.add_char b '0'
+  | XI q -> bits_of_pos b q; Buffer.add_char b '1'
+let sx_of_zb (z : z) : Sx.t =
+  let b = Buffer.create 80 in
+  (match z with
+   | Z0 -> Buffer.add_string b "b0"
+   | Zpos p -> Buffer.add_char b 'b'; bits_of_pos b p
+   | Zneg p -> Buffer.add_string b "b-"; bits_of_pos b p);
+  A (Buffer.contents b)
+let zb_of_sx = function
+  | A s when Stdlib.String.length s >= 2 && Stdlib.String.get s 0 = 'b' ->
+    let neg = Stdlib.String.get s 1 = '-' in
+    let start = if neg then 2 else 1 in
+    let acc = ref None in
+    Stdlib.String.iteri (fun i c ->
+      if i >= start then
+        match !acc, c with
+        | None, '0' -> ()
+        | None, '1' -> acc := Some XH
+        | Some p, '0' -> acc := Some (XO p)
+        | Some p, '1' -> acc := Some (XI p)
+        | _ -> failwith "zb_of_sx") s;
+    (match !acc with None -> Z0 | Some p -> if neg then Zneg p else Zpos p)
+  | _ -> failwith "zb_of_sx"
+let tok_of_sxb = function
+  | A "H" -> THyphen | A "C" -> TColon | A "M" -> TComma
+  | L [A "P"; v] -> (match zb_of_sx v with Z0 -> TPosInt N0 | Zpos p -> TPosInt (Npos p) | Zneg _ -> failwith "tok")
+  | _ -> failwith "tok_of_sxb"
+let sx_of_tokb = function
+  | TPosInt N0 -> L [A "P"; A "b0"]
+  | TPosInt (Npos p) -> L [A "P"; sx_of_zb (Zpos p)]
+  | t -> sx_of_tok t
+(* everything C13 observes that does not enumerate the values: length, r[i] at the given indices, the printed
+   tokens, and the same two observations on the re-parsed print *)
+let describe_big pm (e : iexpr) (idx : z list) : Sx.t =
+  let toks = expr_tokens e in
+  let obs e' = L [sx_of_zb (elen e'); sx_of_list (fun i -> sx_of_outcome sx_of_zb (getitem e' i)) idx] in
+  let re = match parse_tokens pm false toks with
+    | Ok e' -> L [A "ok"; obs e']
+    | Raise x -> L [A "raise"; A (exn_name x)] in
+  L [ obs e; sx_of_list sx_of_tokb toks; re ]
+
 let handle (req : Sx.t) : Sx.t =
   match req with
+  | L [A "big"; pm; pt; toks; idx] ->
+    let pm = bool_of_sx pm and pt = bool_of_sx pt in
+    (match parse_tokens pm pt (list_of_sx tok_of_sxb toks) with
+     | Ok e -> L [A "ok"; describe_big pm e (list_of_sx zb_of_sx idx)]
+     | Raise x -> L [A "raise"; A (exn_name x)])
   | L (A "table" :: entries) ->
     Hashtbl.reset table;
     List.iter (function L [A cp; A cl] -> Hashtbl.replace table (int_of_string cp) (class_of_name cl) | _ -> failwith "table") entries;
